@@ -11,7 +11,8 @@ return an arbitrary `m`.  Here the two events are refined:
 
 * `enter k chk` – thinker `k` obtains `g.moveLock` and runs `GetMove` up to the point where the searching player is
   asked: `Friendly.GetMove` reads the game record **as it stands at that moment** (`f.g.Positions[len-2]`,
-  `f.g.Moves[len-1]`), lets the FPA rule check the newest pair (the rule's notes are updated), resigns (the
+  `f.g.Moves[len-1]`), shows the FPA rule the older pairs of the record and lets it check the newest one (the rule's
+  notes are rebuilt: `fixes/C07-fpa-record-notes.diff`; `replay = false` is the tree before it), resigns (the
   `Resign` command and the `Tell` go out at once, from inside `GetMove`), answers off turn, or takes the rule's
   scripted move; `chk` are the verdicts of Friendly's depth-3 check engine (`waitUndo`), the one oracle left.
   An index panic of that code is a panic on a thinker goroutine: the process is gone (`dead`).
@@ -60,6 +61,8 @@ structure Conf where
   guard : Bool
   /-- `ObserveGame` instead of `PlayGame` (`bot.color = .none`): the bot is not asked for a configuration -/
   observe : Bool := false
+  /-- `fixes/C07-fpa-record-notes.diff` applied (`false`: the tree before it, kept for the counterexamples) -/
+  replay : Bool := true
 
 /-- `Bot.AcceptUndo()` -/
 def Conf.acceptUndo (c : Conf) : Bool :=
@@ -132,7 +135,9 @@ record, the position and clock handed in, the check engine's verdicts -/
 def glueOn (c : Conf) (fpa : Option (Variant × Rule)) (positions : List Pos) (moves : List Move) (p : Pos) (mine : Int)
     (chk : CheckOracle) : R (Option (Variant × Rule) × Action) :=
   match c.who with
-  | .friendly _ => friendlyGetMove fpa { color := c.bot.color, size := c.size, positions := positions, moves := moves } p chk
+  | .friendly _ =>
+    if c.replay then friendlyGetMove fpa { color := c.bot.color, size := c.size, positions := positions, moves := moves } p chk
+    else friendlyGetMovePinned fpa { color := c.bot.color, size := c.size, positions := positions, moves := moves } p chk
   | .taktician tc => .ok (fpa, takticianGetMove tc c.bot.color c.size p mine)
 
 def glueCall (c : Conf) (fpa : Option (Variant × Rule)) (b : Bot.St) (t : Thinker) (chk : CheckOracle) :
@@ -238,14 +243,6 @@ def firstWaiting (b : Bot.St) : Option Nat := (thinkers b).findIdx? (fun t => t.
 real loop ask again for ever) -/
 def callCap : Nat := 200
 
-/-- the verdicts the harness lets a call see: a check engine never claims a win in one on the start position (C05:
-no road on an empty board), and `waitUndo` would index `Positions[len-2]` of a one-position record if it did
-(`C07.ChkOK` is this restriction as a hypothesis; `current_thinker_total`) -/
-def saneChk (b : Bot.St) (k : Nat) (chk : CheckOracle) : CheckOracle :=
-  match thinkerAt b k with
-  | some t => if t.pos.move ≤ 0 && asksPrev chk then { curV := 0, curDepth := 3, prevV := 0 } else chk
-  | none => chk
-
 /-- one spontaneous step, if there is one: the call in progress returns unless it waits for the searching player
 (`think`) or for its context (`resign`, not yet cancelled); with the lock free the first parked thinker takes it -/
 def spont [Inhabited χ] (c : Conf) (S : Searcher σ χ) (chk : CheckOracle) (s : St σ χ) : Option (St σ χ) :=
@@ -260,7 +257,7 @@ def spont [Inhabited χ] (c : Conf) (S : Searcher σ χ) (chk : CheckOracle) (s 
   | none =>
     if !lockFree s.b || s.entered ≥ callCap then none else
     match firstWaiting s.b with
-    | some k => some (enter c s k (saneChk s.b k chk))
+    | some k => some (enter c s k chk)
     | none => none
 
 def settleN [Inhabited χ] (c : Conf) (S : Searcher σ χ) (chk : CheckOracle) : Nat → St σ χ → St σ χ
